@@ -162,6 +162,10 @@ def branches(c: dict, obs: str) -> list[str]:
         t += [f"pipe:{c['q_proj']}", f"pipe:{obs.split(' ')[0]}"]
     elif fam == "gqa":
         t.append(f"gqa:miss={c['miss']}")
+    elif fam == "shapeopt":
+        t += [f"shapeopt:{obs.split(' ')[0]}", f"shapeopt:slice_inputs={c['n_in']}", f"shapeopt:steps={c['steps']}"]
+        if fired(obs):
+            t.append("shapeopt:" + obs.split(" ")[1].split("(")[0])
     elif fam in ("pqkv", "attn", "i2g", "mhab", "softmax"):
         t.append(f"{fam}:{obs.split(' ')[0]}")
     return t
@@ -184,6 +188,9 @@ REQUIRED_BRANCHES = [
     "mha:mask=rejected",
     "pipe:none", "pipe:scale", "pipe:bias", "pipe:scale_bias", "pipe:bias_scale", "pipe:count=1/0/0/0/0",
     "gqa:fired", "gqa:refused", "gqa:miss=il_both", "gqa:miss=mask_op",
+    "shapeopt:count=1", "shapeopt:count=0", "shapeopt:slice_inputs=3", "shapeopt:slice_inputs=4",
+    "shapeopt:slice_inputs=5", "shapeopt:steps=2", "shapeopt:steps=-1", "shapeopt:Identity", "shapeopt:Concat",
+    "shapeopt:Constant",
     "pqkv:count=1", "pqkv:count=0", "attn:count=1", "attn:count=0", "i2g:count=1", "i2g:count=0",
     "mhab:count=1/1", "mhab:count=0/1", "mhab:count=1/0", "mhab:count=0/0",
 ]
@@ -228,7 +235,7 @@ def run_case(c: dict, nrng, stats: Counter, numeric: bool = True, e2e: bool = Fa
     known = {v.name for v in mp.graph.input}
     try:
         cnt = fam.fuse(model)
-        obs = L.observe(model, cnt, fam.ops, known)
+        obs = fam.observe(model, cnt) if hasattr(fam, "observe") else L.observe(model, cnt, fam.ops, known)
         if not fired(obs) or (getattr(fam, "key_op", None) and fam.key_op not in obs):
             obs = obs.split(" ")[0]  # nothing (or not the family's own rule) fired: only the counts are compared
         if hasattr(fam, "canon"):
